@@ -195,6 +195,66 @@ Proof.
   apply IH. apply abmf_step_spec, Hb.
 Qed.
 
+(* ---- no history of reservations, refunds and queries drives a balance below zero ---- *)
+
+(* requests other than a termination debit, with amounts in 0..2^63-1 *)
+Definition no_final_debit (c : ccr) : Prop :=
+  (c_action c = 0 -> c_type c <> 3) /\ (forall a, c_requested c = Some a -> in63 a).
+
+Lemma spec_step_nonneg q c :
+  no_final_debit c -> 0 <= q < 9223372036854775808 ->
+  (* the account never goes below zero; without overflow of a refund it only moves by the amounts *)
+  (c_action c <> 1 -> 0 <= spec_step q c <= q) /\
+  (c_action c = 1 -> forall a, c_requested c = Some a -> q + a < 9223372036854775808 -> spec_step q c = q + a).
+Proof.
+  intros [Ht Ha] Hq. unfold spec_step. split.
+  - intros Hn. destruct (c_action c =? 1) eqn:E1; [lia|].
+    destruct (c_action c =? 0) eqn:E0; [|lia].
+    destruct ((c_type c =? 1) || (c_type c =? 2)) eqn:E12.
+    + destruct (c_requested c) as [a|] eqn:Er; [|lia].
+      pose proof (Ha a eq_refl) as Hin. unfold in63 in Hin.
+      rewrite (wrap64_id a) by lia.
+      destruct (a >? q) eqn:Eg.
+      * rewrite wrap64_id by lia. lia.
+      * rewrite wrap64_id by lia. lia.
+    + destruct (c_type c =? 3) eqn:E3; [|lia]. exfalso. apply Ht; lia.
+  - intros H1 a Er Hs. rewrite H1. cbn [Z.eqb Pos.eqb]. rewrite Er.
+    pose proof (Ha a Er) as Hin. unfold in63 in Hin.
+    rewrite (wrap64_id a) by lia. rewrite wrap64_id by lia. reflexivity.
+Qed.
+
+(* along every sequence of such requests (any mix of accounts) in which no refund
+   overflows, the stored balance of an account that starts in 0..2^63-1 stays there *)
+Fixpoint refunds_fit (ue rg : Z) (q : Z) (cs : list ccr) : Prop :=
+  match cs with
+  | [] => True
+  | c :: cs' =>
+      let q' := if targets c ue rg then spec_step q c else q in
+      (targets c ue rg = true -> c_action c = 1 -> forall a, c_requested c = Some a -> q + a < 9223372036854775808) /\
+      refunds_fit ue rg q' cs'
+  end.
+
+Theorem abmf_never_negative : forall cs d ue rg q,
+  bal d ue rg = Some q -> 0 <= q < 9223372036854775808 ->
+  Forall no_final_debit cs -> refunds_fit ue rg q cs ->
+  exists q', bal (fold_left (fun d c => fst (abmf_ccr d c)) cs d) ue rg = Some q' /\
+             0 <= q' < 9223372036854775808.
+Proof.
+  intros cs d ue rg q Hb Hq Hf Hr. rewrite (abmf_sequence cs d ue rg q Hb).
+  eexists; split; [reflexivity|].
+  clear Hb d. revert q Hq Hr. induction Hf as [|c cs Hc Hf IH]; intros q Hq Hr; cbn [fold_left]; [exact Hq|].
+  cbn [refunds_fit] in Hr. destruct Hr as [Hr1 Hr2]. apply IH; [|exact Hr2].
+  destruct (targets c ue rg) eqn:Et; [|exact Hq].
+  destruct (spec_step_nonneg q c Hc Hq) as [Hn Hp].
+  destruct (Z.eq_dec (c_action c) 1) as [E|E].
+  - destruct (c_requested c) as [a|] eqn:Er.
+    + rewrite (Hp E a eq_refl (Hr1 eq_refl E a eq_refl)).
+      destruct Hc as [_ Ha]. pose proof (Ha a Er) as Hin. unfold in63 in Hin.
+      pose proof (Hr1 eq_refl E a eq_refl). lia.
+    + unfold spec_step. rewrite E. cbn [Z.eqb Pos.eqb]. rewrite Er. exact Hq.
+  - specialize (Hn E). lia.
+Qed.
+
 (* ---- C08 ---- *)
 
 Definition known_sur (d : db) (s : sur) (x : doc) : Prop :=
